@@ -44,6 +44,12 @@ int vf_console_printf(const char *fmt, ...);
 #define putchar vf_console_putchar
 #define printf vf_console_printf
 #include C11_SCHED_MFRAME_C
+#ifdef C11_SCHED_EXTRA1_C
+#include C11_SCHED_EXTRA1_C
+#endif
+#ifdef C11_SCHED_EXTRA2_C
+#include C11_SCHED_EXTRA2_C
+#endif
 #undef puts
 #undef putchar
 #undef printf
